@@ -22,6 +22,7 @@ func c03NewFS() hackpadfs.FS {
 
 // For views, the pre-state is built through the parent (below c03BuildPrefix): what exists does not depend
 // on the view working.
+var c03PStore *pStore // the plain store of kind 1 (fault injection)
 var c03BuildFS hackpadfs.FS
 var c03BuildPrefix string
 
@@ -34,7 +35,8 @@ func c03NewFSKind(kind int) hackpadfs.FS {
 	}
 	switch kind {
 	case 1:
-		fs, err := keyvalue.NewFS(pNewStore())
+		c03PStore = pNewStore()
+		fs, err := keyvalue.NewFS(c03PStore)
 		verifAssert(err == nil, "keyvalue.NewFS failed")
 		return fs
 	case 2, 4:
@@ -277,5 +279,38 @@ func VerifC03Hist() {
 	}
 	verifReach("op-returned")
 	c03Invariant(fs, "after the second operation")
+	verifReach("invariant-checked")
+}
+
+// VerifC03Faults: a multi-step operation (Rename of a directory with children, MkdirAll of several levels,
+// RemoveAll of a subtree) on keyvalue.FS over a plain store that rejects one of the operation's store calls:
+// whatever the operation answers, the tree it leaves behind is well formed - the steps are ordered so that a
+// failure part-way never leaves an entry without its parent.
+func VerifC03Faults() {
+	fs := c03NewFSKind(1)
+	c03SymTree(fs)
+	cands := rCandidates()
+	fault := verifInt("fault")
+	verifAssume(fault >= 0)
+	verifAssume(fault <= verifParam("MAXFAULT"))
+	c03PStore.calls, c03PStore.faultAt = 0, fault
+	p := cands[1+verifChoice("arg", len(cands)-1)]
+	switch verifChoice("op", 3) {
+	case 0:
+		verifTag("op", "Rename")
+		_ = hackpadfs.Rename(fs, p, cands[1+verifChoice("arg2", len(cands)-1)])
+	case 1:
+		verifTag("op", "MkdirAll")
+		_ = hackpadfs.MkdirAll(fs, p, 0755)
+	default:
+		verifTag("op", "RemoveAll")
+		_ = hackpadfs.RemoveAll(fs, p)
+	}
+	c03PStore.faultAt = -1
+	verifReach("op-returned")
+	if c03PStore.fired {
+		verifReach("fault-fired")
+	}
+	c03Invariant(fs, "after an operation with a rejected store call")
 	verifReach("invariant-checked")
 }
